@@ -343,8 +343,8 @@ func (c *ClientConn) maybePrepareAndExecute(request Request, raw *frame.RawFrame
 	}
 
 	if msg, ok := frm.Body.Message.(*message.Unprepared); ok {
-		id := c.preparedCacheKey(msg.Id)
-		if prepare, ok := c.preparedCache.Load(id); ok {
+		id := hex.EncodeToString(msg.Id)
+		if prepare, ok := c.loadPrepared(raw.Header.Version, msg.Id); ok {
 			err = c.Send(&prepareRequest{
 				prepare:     prepare.PreparedFrame,
 				origRequest: request,
@@ -386,7 +386,7 @@ func (c *ClientConn) maybeCachePrepared(request Request, raw *frame.RawFrame) {
 				zap.Stringer("response", msg))
 			return
 		}
-		c.preparedCache.Store(c.preparedCacheKey(msg.PreparedQueryId),
+		c.preparedCache.Store(c.preparedCacheKey(raw.Header.Version, msg.PreparedQueryId),
 			&PreparedEntry{
 				request.Frame().(*frame.RawFrame), // Store frame so we can re-prepare
 			})
@@ -394,14 +394,28 @@ func (c *ClientConn) maybeCachePrepared(request Request, raw *frame.RawFrame) {
 }
 
 // preparedCacheKey is the key a statement's `PREPARE` frame is cached under. The cached frame is the frame as it was sent
-// by a client, so it can only be replayed on connections using the compression it was sent with. Connections that
-// use compression keep their frames apart from the ones that don't (and from each other).
-func (c *ClientConn) preparedCacheKey(id []byte) string {
-	key := hex.EncodeToString(id)
+// by a client, so it can only be replayed on connections using the compression and the protocol version it was sent
+// with: both are part of the key.
+func (c *ClientConn) preparedCacheKey(version primitive.ProtocolVersion, id []byte) string {
+	key := fmt.Sprintf("%s@%d", hex.EncodeToString(id), version)
 	if len(c.compression) > 0 {
 		key = strings.ToLower(c.compression) + ":" + key
 	}
 	return key
+}
+
+// loadPrepared looks up the `PREPARE` frame that can be replayed on this connection for a prepared ID.
+func (c *ClientConn) loadPrepared(version primitive.ProtocolVersion, id []byte) (*PreparedEntry, bool) {
+	if entry, ok := c.preparedCache.Load(c.preparedCacheKey(version, id)); ok {
+		return entry, true
+	}
+	// An entry stored under the plain ID (by something other than a connection) is used if its frame fits this connection.
+	if entry, ok := c.preparedCache.Load(hex.EncodeToString(id)); ok && entry != nil && entry.PreparedFrame != nil &&
+		entry.PreparedFrame.Header != nil && entry.PreparedFrame.Header.Version == version &&
+		(len(c.compression) > 0 || !entry.PreparedFrame.Header.Flags.Contains(primitive.HeaderFlagCompressed)) {
+		return entry, true
+	}
+	return nil, false
 }
 
 func (c *ClientConn) Closing(err error) {
